@@ -48,7 +48,7 @@ func genC30Map(t *rapid.T) c30mCase {
 	case fk == 0:
 	case fk == 1:
 		c.File = map[string]map[uint16]string{}
-		c.EmptyDoc = rapid.IntRange(0, 3).Draw(t, "empty_doc")
+		c.EmptyDoc = rapid.IntRange(0, 6).Draw(t, "empty_doc")
 	default:
 		c.File = map[string]map[uint16]string{}
 		for _, cl := range c30mClients {
@@ -96,7 +96,13 @@ func (c c30mCase) yaml() string {
 		}
 	}
 	if len(c.File) == 0 {
-		sb.WriteString([]string{"{}\n", "# c1:\n#   1: commented/out\n", "~\n", "null\n"}[c.EmptyDoc%4])
+		if c.EmptyDoc >= 4 {
+			// no document at all: an empty file, a newline, comments only (no "---" either)
+			sb.Reset()
+			sb.WriteString([]string{"", "\n", "# no entries yet\n# c1:\n#   1: commented/out\n"}[c.EmptyDoc-4])
+		} else {
+			sb.WriteString([]string{"{}\n", "# c1:\n#   1: commented/out\n", "~\n", "null\n"}[c.EmptyDoc%4])
+		}
 	}
 	return sb.String()
 }
@@ -218,7 +224,7 @@ func runC30Map(c c30mCase) (r vf.Result) {
 func TestC30Map(t *testing.T) {
 	vf.Check(t, vf.Prop[c30mCase]{
 		ID: "C30", Name: "mapping-in-process",
-		Rule: "in-process: the three calls every tool makes (ReadPredefinedTopicsFile on a generated YAML file, ParsePredefinedTopicOptions, Merge) over files with 0-3 client blocks ('*', c1, c2; IDs 1-4; names from a pool of 2, 3 or 7 so that one name sits under several IDs; empty documents and empty blocks in all their spellings) and 0-5 options (two- and three-field forms, overlapping); then GetTopicName for clients c1, c2, zz x IDs 1-5 and GetTopicID for the same clients x every name. Non-trivial = a file and an option which overrides an entry; distinct by case.",
+		Rule: "in-process: the three calls every tool makes (ReadPredefinedTopicsFile on a generated YAML file, ParsePredefinedTopicOptions, Merge) over files with 0-3 client blocks ('*', c1, c2; IDs 1-4; names from a pool of 2, 3 or 7 so that one name sits under several IDs; empty documents (also files without any document: empty, a newline, comments only) and empty blocks in all their spellings) and 0-5 options (two- and three-field forms, overlapping); then GetTopicName for clients c1, c2, zz x IDs 1-5 and GetTopicID for the same clients x every name. Non-trivial = a file and an option which overrides an entry; distinct by case.",
 		Assumptions: []string{"oracle: the statement's mapping computed by the harness (file, then options in order, entry by entry; no client ID = '*'; a client's own entry shadows the '*' entry of that ID): ID -> name must agree exactly; name -> ID must answer an ID whose effective name for that client is the name whenever one exists, and nothing otherwise (which of several applicable IDs is answered is free)"},
 		Gen:         genC30Map,
 		Run:         runC30Map,
